@@ -18,7 +18,7 @@ ID = "C06"
 SHARDS = {"quick": 16, "thorough": 16}
 RULE = ("data sets as C05; requested pressure grid either inside the range reported by the qha package (10 % margins) or "
         "overshooting its upper end by >= max(5 % of the range, 2 GPa) or by only 0.002-0.02 GPa; every modulus (adiabatic, isothermal), six averages, both "
-        "velocities and the volume are compared at every (T,P); non-trivial = inside-grid spanning >= 3 volume-grid cells and >= 2 "
+        "velocities and the volume are compared at every (T,P), read again in the opposite order, and compared with what Plotter.plot_cij_p_with / plot_cij_t_with present; non-trivial = inside-grid spanning >= 3 volume-grid cells and >= 2 "
         "temperatures, or an overshooting grid; distinct by the drawn spec")
 ASSUMPTIONS = [
     "QHA's P(T,V) on the dense grid is the trusted pressure field (observed through volume_base.pressures)",
@@ -119,6 +119,42 @@ def oracle(ctx, s, ds, qs, case):
         k0 = keys[0]
         fields["attr:c%d%d" % k0.voigt] = (np.array(getattr(vb, "c%d%d" % k0.voigt), dtype=float),
                                             np.array(getattr(pb, "c%d%d" % k0.voigt), dtype=float))
+        # read again in the opposite order (Hill before Voigt, isothermal before adiabatic): every pressure-base quantity is
+        # the same array as at its first reading
+        for name in list(reversed(AVERAGES)) + list(AVERAGES):
+            again = np.array(ctx.observe(getattr, pb, name, _bucket="C06/crash", _case=case), dtype=float)
+            if again.shape != fields[name][1].shape or not np.array_equal(again, fields[name][1], equal_nan=True):
+                raise PropertyViolation("C06/changed-by-reading", "pressure-base %s read again (after the other averages) differs from its first reading" % name, case)
+        for k in reversed(keys):
+            for suffix, view in (("t", miso), ("s", madi)):
+                again = np.array(view[k], dtype=float)
+                if not np.array_equal(again, fields["c%d%d%s" % (k.voigt + (suffix,))][1], equal_nan=True):
+                    raise PropertyViolation("C06/changed-by-reading", "pressure-base c%d%d%s read again differs from its first reading" % (k.voigt + (suffix,)), case)
+        # the plotting helper presents the same pressure-base tables (isotherms and isobars in GPa)
+        try:
+            from cij.plot.plotter import Plotter
+        except Exception:
+            Plotter = None
+        if Plotter is not None:
+            from cij.util import _to_gpa
+            plo = Plotter(calc)
+            Tg = np.array(calc.t_array, dtype=float)
+            pg = np.array(pb.p_array, dtype=float)
+            k = keys[len(keys) // 2]
+            kint = int("%d%d" % k.voigt)
+            want_tab = np.array(_to_gpa(fields["c%d%ds" % k.voigt][1]), dtype=float)
+            for it in sorted(set([0, len(Tg) // 2, len(Tg) - 1])):
+                xs, ys = ctx.observe(plo.plot_cij_p_with, lambda x, y: (np.array(x, dtype=float), np.array(y, dtype=float)), kint, float(Tg[it]),
+                                     _bucket="C06/plotter-crash", _case=case)
+                if ys.shape != want_tab[it].shape or not np.allclose(ys, want_tab[it], rtol=1e-12, atol=0, equal_nan=True) \
+                        or not np.allclose(xs, np.array(_to_gpa(pg), dtype=float), rtol=1e-12, atol=1e-12):
+                    raise PropertyViolation("C06/plotter-isotherm", "Plotter.plot_cij_p_with(c%d, T=%g) does not present pressure_base.modulus_adiabatic along that isotherm" % (
+                        kint, Tg[it]), case)
+            ip = len(pg) // 3
+            xs, ys = ctx.observe(plo.plot_cij_t_with, lambda x, y: (np.array(x, dtype=float), np.array(y, dtype=float)), kint, float(_to_gpa(pg[ip])),
+                                 _bucket="C06/plotter-crash", _case=case)
+            if ys.shape != want_tab[:, ip].shape or not np.allclose(ys, want_tab[:, ip], rtol=1e-12, atol=0, equal_nan=True):
+                raise PropertyViolation("C06/plotter-isobar", "Plotter.plot_cij_t_with(c%d, P) does not present pressure_base.modulus_adiabatic along that isobar" % kint, case)
         vol_tp = np.array(pb.volumes, dtype=float)
         p_conv = np.array(pb.v2p(P), dtype=float)
         g = lambda x: np.sin(40.0 * x) + 3.0 * x
